@@ -65,8 +65,11 @@ class AstBuilder:
             out, dmap, get_id = token.node_id, self.dsp.dmap, get_unused_node_id
             if out not in self.dsp.nodes:
                 func = token.compile()
+                f_id = token.name
+                if isinstance(token, Function):
+                    f_id += '('  # Neither a defined name nor an expression.
                 kw = {
-                    'function_id': get_id(dmap, token.name),
+                    'function_id': get_id(dmap, f_id),
                     'function': func,
                     'inputs': inputs or None,
                     'outputs': [out]
